@@ -84,13 +84,14 @@ func (c *Config) v4() bool { return c.Stack == "v4" || c.Stack == "dual" }
 func (c *Config) v6() bool { return c.Stack == "v6" || c.Stack == "dual" }
 
 type Op struct {
-	Kind    string `json:"kind"` // up down reup sleep drift-ip drift-eni restart-daemon restart-ctrl barrier
-	Pod     int    `json:"pod,omitempty"`
-	Order   string `json:"order,omitempty"` // for down: del-obj | obj-del | obj-only | del-only
-	Async   bool   `json:"async,omitempty"`
-	DelayMs int    `json:"delay_ms,omitempty"`
-	SleepS  int    `json:"sleep_s,omitempty"`
-	N       int    `json:"n,omitempty"`
+	AddDelayMs int    `json:"add_delay_ms,omitempty"` // up: time the runtime takes between the pod object appearing and the CNI ADD
+	Kind       string `json:"kind"`                   // up down reup sleep drift-ip drift-eni restart-daemon restart-ctrl barrier
+	Pod        int    `json:"pod,omitempty"`
+	Order      string `json:"order,omitempty"` // for down: del-obj | obj-del | obj-only | del-only
+	Async      bool   `json:"async,omitempty"`
+	DelayMs    int    `json:"delay_ms,omitempty"`
+	SleepS     int    `json:"sleep_s,omitempty"`
+	N          int    `json:"n,omitempty"`
 }
 
 type PlannedFault struct {
